@@ -150,6 +150,14 @@ func (p Params) Validate() error {
 		return err
 	}
 
+	// every phase has to last at least one block, otherwise the per block
+	// provision of the phase is a division by zero in the begin blocker.
+	for i := range p.Phases {
+		if !p.getPhaseBlocks(i + 1).IsPositive() {
+			return fmt.Errorf("phase %d is shorter than one block with %d blocks per year", i+1, p.BlocksPerYear)
+		}
+	}
+
 	return validateExcludeAmount(p.ExcludeAmount)
 }
 
@@ -278,6 +286,9 @@ func validatePhases(i interface{}) error {
 	for _, p := range v {
 		if !p.YearCoefficient.GT(sdkmath.LegacyZeroDec()) {
 			return fmt.Errorf(ErrTextYearCoefficientMustBePositive, p.YearCoefficient)
+		}
+		if p.Inflation.IsNil() || p.Inflation.IsNegative() {
+			return fmt.Errorf(ErrTextMintParamInflationShouldBePositive, p.Inflation)
 		}
 		if IsEndPhase(p) {
 			return fmt.Errorf(ErrTextEndPhaseParamNotAllowed, p.Inflation)
